@@ -232,7 +232,7 @@ def r4(ctx):
 
         def recog(e):
             if isinstance(e, ast.Attribute) and e.attr == "booted":
-                return -1         # C = 'worker did not finish booting'
+                return +1         # C = 'worker finished booting'; the boot-error exit needs its false edge
             return None
         p, hits = guard_check(f, nodes_with(f, c), recog)
         ctx.check("C03.R4", p is None and bool(hits), key(f, "boot-error-guard"), site(f, c), "WORKER_BOOT_ERROR is used although the worker may have booted (a crash of a running worker would halt the server)",
